@@ -32,6 +32,11 @@ def harness_binary(h):
         name = "epoch%d" % cap
         defines = ["DBGROUP_MAX_THREAD_NUM=%d" % cap]
         return D.build(name, "epoch", "epoch.cpp", defines), "EpochManager/cap%d" % cap
+    if kind == "idmcaps":
+        cap = h["cap"]
+        name = "idmcaps%d" % cap
+        defines = ["DBGROUP_MAX_THREAD_NUM=%d" % cap]
+        return D.build(name, "idm", "idm_caps.cpp", defines, shim=True, link_engine=False), "IDManager/cap%d/sequential" % cap
     raise D.InternalError("unknown harness kind " + kind)
 
 
